@@ -159,7 +159,7 @@ def api_level(chk, b, tier):
     rng = random.Random("C11|%d" % R.SEED)
     cases = []
     scales = {v1: (sc, hum) for _, _, _, v1, hum, _, sc in P.TABLE_LAYOUT}
-    nvec = 150 if tier == "quick" else 3000
+    nvec = 150 if tier == "quick" else 10000
     for i in range(nvec):
         fields = {}
         for k, (sc, hum) in scales.items():
@@ -320,7 +320,7 @@ def run(chk, b, tier):
     api_level(chk, b, tier)
     sz = b.sizer()
     scratch = b.scratchdir()
-    n = 32 if tier == "quick" else 400
+    n = 32 if tier == "quick" else 1200
     shimdir = b.shimdir()
     res = R.pmap(cli_case, [(R.SEED, i, sz, scratch, shimdir) for i in range(n)], chk=chk)
     for i, r in enumerate(res):
